@@ -175,6 +175,7 @@ type srvRun struct {
 	idleCancel func()
 	loginID    map[int]uint32
 	loginArgs  map[int]map[string]any
+	everSoon   []time.Time // expiry instants of every short ban planted (also of replaced ones)
 	admPw      string // the world's password of account "adm" (storm participants log in with it)
 }
 
@@ -709,6 +710,7 @@ func (r *srvRun) step(st map[string]any, ev map[string]any) error {
 			t := now.Add(4 * time.Second)
 			until = &t
 			r.soon[ip] = t
+			r.everSoon = append(r.everSoon, t)
 		case "past":
 			t := now.Add(-time.Second)
 			until = &t
@@ -717,6 +719,13 @@ func (r *srvRun) step(st map[string]any, ev map[string]any) error {
 			return err
 		}
 	case "wait":
+		// beyond the end of every short ban planted so far, also of those replaced by another ban meanwhile
+		for _, t := range r.everSoon {
+			if d := time.Until(t); d > -150*time.Millisecond {
+				time.Sleep(d + 150*time.Millisecond)
+			}
+		}
+		r.everSoon = nil
 		for ip, t := range r.soon {
 			if d := time.Until(t); d > -150*time.Millisecond {
 				time.Sleep(d + 150*time.Millisecond)
